@@ -16,6 +16,7 @@ EXPLANATION = (
     "site and a witness character. bash must reach no descriptive-text source at all (call-graph who-may-call = 0, with a "
     "positive control). Sibling cross-check: instance floors per generator. NOT decided: second-level parsers inside a quoted "
     "word (zsh _arguments spec syntax), behaviour of real shells beyond the tabulated quoting grammar."
+    ' R17.3: no cutting/editing operation (truncate, pop, slicing, take/nth ...) inside an escaping helper or on an escaped string.'
 )
 TRUSTED = ["rustc MIR + expanded AST", "clapfacts", "lib/strflow.py tree builder", "lib/shellq.py quoting grammars of fish/zsh/elvish/PowerShell/nushell",
            "std str::replace semantics (single-char pattern = homomorphism)"]
